@@ -48,6 +48,13 @@ func TraverseAST(node ast.Node, env *Pass1) ast.Node {
 			return nil // またはエラーを適切に処理します
 		}
 
+		// 評価後の式がまだ自分自身の名前を含む場合 (A EQU A, A EQU A+1, A EQU B / B EQU A) は
+		// 使用時の再帰評価が終わらずスタックオーバーフローになるため、定義を拒否します。
+		if referencesIdent(evalValueExp.TokenLiteral(), n.Id.Value) {
+			log.Printf("error: EQU '%s' is defined in terms of itself: %s", n.Id.Value, evalValueExp.TokenLiteral())
+			return nil
+		}
+
 		// Pass1 のメソッドを使用して環境にマクロを定義します。
 		env.DefineMacro(n.Id.Value, evalValueExp)
 		log.Printf("debug: Defined macro '%s' = %s", n.Id.Value, evalValueExp.TokenLiteral())
@@ -285,4 +292,17 @@ func getConstValue(exp ast.Exp) (int, bool) {
 		}
 	}
 	return 0, false
+}
+
+// referencesIdent は、式の文字列表現に識別子 name が (部分文字列ではなく) トークンとして現れるかを返します。
+func referencesIdent(text string, name string) bool {
+	isIdentChar := func(r rune) bool {
+		return r == '_' || r == '$' || r == '.' || (r >= '0' && r <= '9') || (r >= 'a' && r <= 'z') || (r >= 'A' && r <= 'Z')
+	}
+	for _, tok := range strings.FieldsFunc(text, func(r rune) bool { return !isIdentChar(r) }) {
+		if tok == name {
+			return true
+		}
+	}
+	return false
 }
